@@ -20,7 +20,7 @@ RECURSIVE Norm(_)
 Norm(s) == IF Len(s) > 0 /\ s[Len(s)] = 0 THEN Norm(SubSeq(s, 1, Len(s)-1)) ELSE s
 
 RECURSIVE FromInt(_)
-FromInt(n) == IF n = 0 THEN <<>> ELSE <<n % Base>> \o FromInt(n \div Base)
+FromInt(n) == IF n <= 0 THEN <<>> ELSE <<n % Base>> \o FromInt(n \div Base)
 
 RECURSIVE ToInt(_)      \* only for values below 2^31
 ToInt(s) == IF Len(s) = 0 THEN 0 ELSE s[1] + Base * ToInt(Tail(s))
